@@ -710,6 +710,12 @@ func (x *Exec) native(fr *Frame, st *State, fn *ssa.Function, args []Val, site s
 			return r, true
 		}
 		f := c.Fun("strcontains", []Sort{SInt, SInt}, SBool)
+		// the predicate is decided on the string literals seen so far (a variable that ranges over a literal list)
+		if sub, ok := x.litOf(args[1]); ok {
+			for _, lit := range append([]string{}, x.strLitList...) {
+				x.assumeGlobal(c.Eq(c.Apply(f, x.strLit(lit), args[1].(VInt).T), c.Bool(strings.Contains(lit, sub))))
+			}
+		}
 		return VBool{c.Apply(f, args[0].(VInt).T, args[1].(VInt).T)}, true
 	case full == "github.com/vmware/go-ipfix/pkg/util.Decode":
 		return x.modelDecode(fr, st, args, site), true
